@@ -546,6 +546,9 @@ def run_C07(ctx):
     agg = new_agg()
     model_check(ctx, ["shutdown"] if ctx.quick else ["shutdown", "shutdown2", "big-liveness", "two-shutdowns"], agg)
     trace_check(ctx, "shutdown", 500 if ctx.quick else 6000, "shutdown", agg)
+    # resumed subscriptions whose replay fails part-way, replayers of both kinds: whatever they leave behind, every later call returns
+    if not agg.get("stop"):
+        trace_check(ctx, "resume", 250 if ctx.quick else 3000, "resume", agg)
     steer_check(ctx, ["shutdown", "shutdown-early", "topics", "tiny-down@View0"] + ([] if ctx.quick else ["tiny-down@View1"]), 150 if ctx.quick else 2500, "c07", agg)
     # calls racing the provider's first-use initialisation: one scenario = 150 trials on fresh providers
     if not agg.get("stop"):
